@@ -45,11 +45,24 @@ def _stores(fn: ast.AST) -> Dict[str, int]:
     return counts
 
 
+PURE_CALLS = {"len", "sum", "min", "max", "abs", "sorted", "list", "tuple", "set", "dict", "range", "enumerate", "zip", "float", "int", "str",
+              "bool", "isinstance", "round", "any", "all", "frozenset", "reversed", "repr", "type", "copy", "get", "keys", "values", "items",
+              "index", "count", "format", "accumulate", "attrgetter", "itemgetter", "sqrt", "floor", "ceil", "copysign", "isnan", "isinf",
+              "fabs", "exp", "log", "sin", "cos", "pow", "Time", "from_handle", "_from_handle", "getattr", "hasattr", "id", "divmod"}
+
+
 def _is_pure(e: ast.AST) -> bool:
+    """no side effect, no random draw, and cheap to duplicate: only calls known to be pure functions of their arguments"""
     for n in ast.walk(e):
         if isinstance(n, ast.Call):
             name = n.func.attr if isinstance(n.func, ast.Attribute) else (n.func.id if isinstance(n.func, ast.Name) else "")
             if name in IMPURE_CALLS or name.startswith("_new") or name.startswith("construct"):
+                return False
+            root = n.func
+            while isinstance(root, ast.Attribute):
+                root = root.value
+            from_setting = isinstance(root, ast.Name) and root.id == "setting" and not name.startswith(("set", "reset", "init"))
+            if name not in PURE_CALLS and not from_setting:
                 return False
         if isinstance(n, (ast.Yield, ast.YieldFrom, ast.Await, ast.Lambda, ast.NamedExpr)):
             return False
